@@ -136,6 +136,18 @@ def run_misc(shard, mon):
         else:
             t = base
         judge.judge_bic(mon, t, rng.random() < 0.5, "bicfuzz", "total")
+    if part == 0:
+        # every position of a BIC x the characters that case folding / compatibility mappings relate to ASCII letters
+        base = "DEUTDEFF500"
+        for p_ in range(len(base)):
+            for ch_ in "\u0130\u0131\u017f\u212a\u212b\u00df\ufb01\uff21\u0391\u0410\u24b6\u1e9e":
+                for b_ in (base, base[:8]):
+                    if p_ < len(b_):
+                        for strict_ in (False, True):
+                            judge.judge_bic(mon, b_[:p_] + ch_ + b_[p_ + 1 :], strict_, "bic_position_x_folding_characters", "total")
+        for w_ in gen.BIC_WORDS:
+            for strict_ in (False, True):
+                judge.judge_bic(mon, w_, strict_, "vocabulary", "total")
     # German banks of every method, accounts from all behaviour classes of the method, judged twice in
     # different orders (an error must name a defect that is present - also the second time round)
     from vf import pool as pool_  # noqa: PLC0415
